@@ -223,7 +223,7 @@ def interesting(prop, recs):
     if prop == 'C05':
         return sum(1 for r in recs if r['ev'] == 'step') >= 2
     if prop == 'C12':
-        return sum(1 for r in recs if r['ev'] == 'row') >= 3
+        return sum(1 for r in recs if r['ev'] == 'row') >= 3 and bool(recs[0].get('emit_off'))
     if prop == 'C10':
         return any(p.get('sop', {}).get('op') != 'none' for p in polls)
     return True
